@@ -32,9 +32,17 @@ pub fn run(ctx: &Ctx) -> ! {
         ctx,
         Level {
             category: "exploration",
-            rule: "cases are enumerated, never sampled".into(),
-            assumptions: vec![],
-            exhaustive_space: "".into(),
+            rule: "cases are enumerated, never sampled. matrix: the complete ordered-pair product of the type grid (grid_types x grid_types); per castable pair the empty column, every column of length 1..=L over (all letters + null) for L = all_letters_up_to_length and over the core letters (null + <=4 castable + <=3 failing letters) up to max_column_length, x 3 layouts x both safe values; letters = the type's own extremes + the target's range boundaries +-1 mapped into the source space. exhaustive: every value of Int8/UInt8/Int16/UInt16 and every Float16 bit pattern x every castable grid target x both modes. text: every Date32 day of years 0001-9999; timestamps of 4 units x 4 zones on the stated calendar lattice; scalar lattices; every FormatOptions field within one deviation. dtype: every DataType of the stated grammar up to depth 2. A case is non-trivial when its column holds at least one non-null value (matrix), per value (exhaustive, text), per type (dtype); all enumerated cases are distinct by construction."
+                .into(),
+            assumptions: vec![
+                "inputs are valid arrays: decimals within their declared precision, Time32/Time64 values inside one day (out-of-spec payload appears only under nulls and outside slices)".into(),
+                "O3 demands a value only where a documentation sentence pins it (cited in model.rs); rounding directions that are not documented are accepted either way; everything else is checked relationally (O2 strict/safe duality against 1-row strict casts, O4 inverses)".into(),
+                "text round trip is demanded for calendar years 0001-9999 in the displayed zone (property statement); calendar arithmetic between temporal types is demanded inside chrono's range (about +-262000 years)".into(),
+                "decimal -> decimal pairs whose scale increase exceeds the target's maximum precision are documented (rescale_decimal) to overflow for every value and are recorded, not explored".into(),
+                "a safe cast may fail when the failing element sits in a non-nullable child (map keys): recorded, not a finding".into(),
+                "named IANA zones are out of scope (chrono-tz feature off); unions are not in the grid; field metadata is outside the DataType grammar (documented TODO in datatype_parse.rs)".into(),
+            ],
+            exhaustive_space: "property quantifier: all ordered pairs of a finite type grid accepted by can_cast_types; all values of the 8/16-bit sources; boundary alphabets otherwise; both CastOptions.safe values; FormatOptions within one deviation".into(),
         },
         st,
     )
